@@ -2,6 +2,9 @@
 #include <fstream>
 
 #include "launch/run.h"
+#ifdef PSEUDOENGINE2_VERIF
+#include "verif.h"
+#endif
 
 extern std::string psfilename;
 
@@ -25,6 +28,12 @@ bool runFile() {
     Lexer lexer(&fData);
     try {
         const std::vector<Token*> &tokens = lexer.makeTokens();
+#ifdef PSEUDOENGINE2_VERIF
+        if (PE2Verif::dumpTokensRequested()) {
+            PE2Verif::dumpTokens(tokens);
+            return true;
+        }
+#endif
         Parser parser(&tokens);
         PSC::Block *block = parser.parse();
         std::cout.precision(10);
